@@ -326,6 +326,13 @@ impl<'tcx> Ex<'tcx> {
                 };
                 return format!("{{\"c\":\"int\",\"t\":{},\"v\":{}{}}}", t, esc(&val), extra);
             }
+            // a const generic parameter (`N` in `fn f<const N: usize>`): named, so that an inlined copy can take the
+            // caller's argument
+            if let Const::Ty(_, ct) = c.const_ {
+                if let ty::ConstKind::Param(pc) = ct.kind() {
+                    let _ = write!(extra, ",\"param\":{}", esc(pc.name.as_str()));
+                }
+            }
             return format!("{{\"c\":\"unk\",\"t\":{}{}}}", t, extra);
         }
         // length of slice-typed constants (e.g. bitflags' FLAGS table)
@@ -439,6 +446,22 @@ impl<'tcx> Ex<'tcx> {
         let full = esc(&self.path_args(resolved_def, resolved_args));
         let orig = esc(&self.path(def));
         let targs: Vec<String> = args.types().map(|x| self.ty(x).to_string()).collect();
+        // const generic arguments by parameter name (own parameters of the resolved item)
+        let mut cargs: Vec<String> = Vec::new();
+        {
+            let g = tcx.generics_of(resolved_def);
+            for p in g.own_params.iter() {
+                if let ty::GenericParamDefKind::Const { .. } = p.kind {
+                    if let Some(a) = resolved_args.get(p.index as usize) {
+                        if let Some(ct) = a.as_const() {
+                            if let Some(v) = ct.try_to_target_usize(tcx) {
+                                cargs.push(format!("[{},{}]", esc(p.name.as_str()), esc(&v.to_string())));
+                            }
+                        }
+                    }
+                }
+            }
+        }
         let krate = esc(tcx.crate_name(resolved_def.krate).as_str());
         let item_name = match tcx.opt_item_name(resolved_def) {
             Some(n) => esc(n.as_str()),
@@ -466,7 +489,8 @@ impl<'tcx> Ex<'tcx> {
             "[]".to_string()
         };
         format!(
-            "{{\"may_call\":{},\"id\":{},\"def\":{},\"full\":{},\"orig\":{},\"resolved\":{},\"trait_item\":{},\"trait\":{},\"targs\":{},\"crate\":{},\"name\":{},\"local\":{},\"impl\":{}}}",
+            "{{\"cargs\":{},\"may_call\":{},\"id\":{},\"def\":{},\"full\":{},\"orig\":{},\"resolved\":{},\"trait_item\":{},\"trait\":{},\"targs\":{},\"crate\":{},\"name\":{},\"local\":{},\"impl\":{}}}",
+            jlist(&cargs),
             may_call,
             esc(&self.id(resolved_def)),
             name,
